@@ -15,11 +15,11 @@ Proof.
   unfold hook. intros H Ht.
   assert (R : forall ty, token_at text (retype t ty)) by (intros ty; exact Ht).
   destruct (ttype t =? h_unquoted h).
-  - destruct (top_is vs str_SYMBOL) as [b|e]; cbn [bind] in H; [|discriminate].
+  - destruct (top_is (h_upper h) vs str_SYMBOL) as [b|e]; cbn [bind] in H; [|discriminate].
     destruct (b && negb (mem_str (h_upper h (tval t)) (h_symbol_attrs h)));
       injection H as <-; split; auto.
   - destruct (ttype t =? h_grid h).
-    + destruct (top_is vs str_NAME) as [b|e]; cbn [bind] in H; [|discriminate].
+    + destruct (top_is (h_upper h) vs str_NAME) as [b|e]; cbn [bind] in H; [|discriminate].
       destruct b; injection H as <-; split; auto.
     + injection H as <-. split; auto.
 Qed.
